@@ -129,10 +129,12 @@ PLANS.update({
         [KB_WIDE, KB_DEEP, DK_SIM],
         [{"driver": "replay", "scn": "kb_wide", "args": {"n": 600, "matrix": 0}}, {"driver": "replay", "scn": "dk_sim", "args": {"n": 300, "matrix": 0}},
          {"driver": "attack", "args": {"n": 12, "family": "kb", "stride": 25}},
-         {"driver": "rich", "args": {"n": 400, "depth": 3, "arbsel": 0, "kb": 1, "xfmt": 1}}],
+         {"driver": "rich", "args": {"n": 400, "depth": 3, "arbsel": 0, "kb": 1, "xfmt": 1}},
+         # (the burst of 130 key-bound presentations on one holder instance: honest key-bound presentations are accepted, however many)
+         {"driver": "history", "args": {"random": 6, "only": "holder"}}],
         [{"driver": "replay", "scn": "kb_wide", "args": {"n": 100000, "matrix": 0}}, {"driver": "replay", "scn": "kb_deep", "args": {"n": 6000, "matrix": 0}},
          {"driver": "replay", "scn": "dk_sim", "args": {"n": 8000, "matrix": 0}}, {"driver": "attack", "args": {"n": 24, "family": "kb", "stride": 1}},
-         {"driver": "rich", "args": {"n": 10000, "depth": 6, "arbsel": 0, "kb": 1, "xfmt": 1}}],
+         {"driver": "rich", "args": {"n": 10000, "depth": 6, "arbsel": 0, "kb": 1, "xfmt": 1}}, {"driver": "history", "args": {"random": 200, "only": "holder"}}],
         required={"verify.lenient.kb": 300, "verify.lenient.args": 50, "verify.accept": 20, "present.kb": 100,
                   **{"verify.kb.only." + f: 20 for f in ("absent", "sig", "typ", "aud", "nonce", "sdh")}},
         rule="cases = behaviours of MC_kb (move / strip / alter / re-sign / forge the KB-JWT, change the disclosure list afterwards, six (aud, nonce) expectations) replayed "
